@@ -13,7 +13,8 @@ TITLE = "Scale mean, median, standard deviation and error from category numeric 
 TEMPLATES = ["cat|cat", "cat|cat", "cat|cat_date", "cat_date|cat", "mr|cat", "cat|mr",
              "cai|cac", "cac|cai", "cat", "cat", "cat_date", "cat|cat|cat", "mr|cat|cat",
              "cat|cai|cac", "logical|cat", "cat|binned", "cat", "cat_date"]
-MODES = ["random", "random", "median_trap", "no_values", "sparse", "offset", "one_value"]
+MODES = ["random", "random", "median_trap", "no_values", "sparse", "offset", "one_value",
+         "near_half"]
 RULE = (
     "W1 synthetic surveys over %d templates x {unweighted, integer weights incl. 0, "
     "fractional weights (mean/stddev/stderr only)} x numeric-value assignments {partial, "
@@ -34,6 +35,7 @@ DESIGN_REF = "DESIGN.md 4 C14"
 WEIGHTS = ["none", "ints", "frac", "none", "float", "scales", "tiny"]
 REQUIRED_REACH = ["scale_mean", "scale_stddev", "scale_stderr", "scale_median", "margins",
                   "strand_scale", "none_when_no_values", "class:median_exact_half",
+                  "class:median_almost_half",
                   "class:subtotal_vector", "class:vector_without_valued_respondents"]
 BATCH = 40
 RULE = RULE + corpus.RULE_SUFFIX + w4.RULE_SUFFIX
@@ -86,20 +88,26 @@ def make_case(unit):
             if valued:
                 k0 = g.pick(valued)
                 var_.ans = np.array([k0 if a in valued else a for a in var_.ans])
-    if mode == "median_trap":
+    if mode in ("median_trap", "near_half"):
         _median_trap(g, facets)
     if mode == "sparse":
         cases.entangle_some(g, facets)
     tr = {}
     if g.chance(0.5):
         cases.attach_insertions(g, facets, tr, allow_diff=g.chance(0.3), hide_some=False)
-    if wmode == "ints":
+    if mode == "near_half":
+        # integer weights in the millions, one respondent weighing one unit more: the lower
+        # half holds 50.000002 % of the weight - not a tie, the median is the lower value
+        wmode = "ints"
+        w = np.full(N, float(2 ** 20))
+        w[g.r.randrange(N)] += 1.0
+    elif wmode == "ints":
         w = np.array([float(g.r.choice([0, 1, 1, 2, 3])) for _ in range(N)])
     else:
         w = g.weights(N, wmode)
     spec = sim.CubeSpec(facets, w, ())
     return {"template": template, "spec": sim.spec_to_dict(spec), "transforms": tr,
-            "mode": mode, "wmode": wmode}
+            "mode": mode, "wmode": wmode, "mask_size": cases.mask_size_for(ID, i)}
 
 
 def _median_trap(g, facets):
@@ -147,13 +155,20 @@ def vector_stats(values, counts, integer):
     var = sum(c * (v - mean) ** 2 for v, c in pairs) / W
     med = float("nan")
     if integer:
-        xs = []
-        for v, c in pairs:
-            xs += [v] * int(round(c))
-        if xs:
-            xs.sort()
-            m = len(xs)
-            med = xs[m // 2] if m % 2 else (xs[m // 2 - 1] + xs[m // 2]) / 2.0
+        # the median of the respondents listed one by one (count c = c respondents), found
+        # from cumulative counts so that counts in the millions need no list
+        order = sorted((v, int(round(c))) for v, c in pairs if int(round(c)) > 0)
+        m = sum(c for _, c in order)
+
+        def at(idx):
+            cum = 0
+            for v, c in order:
+                cum += c
+                if idx < cum:
+                    return v
+
+        if m:
+            med = at(m // 2) if m % 2 else (at(m // 2 - 1) + at(m // 2)) / 2.0
     return mean, math.sqrt(max(var, 0.0)), med, W
 
 
@@ -238,6 +253,8 @@ def _slice(res, L, t, part, integer, distinct):
                     cum += c
                     if cum * 2 == W:
                         res.classes.append("median_exact_half")
+                    elif 0 < abs(cum * 2 - W) <= 1e-5 * W:
+                        res.classes.append("median_almost_half")
             # margin of the vector (all opposing elements, valued or not)
             sel0 = V.sel(e, 0) if orient == "rows" else V.sel(0, e)
             margin = o.base(sel0, margin_free, V.weighted)
